@@ -59,7 +59,40 @@ class StmtMixin:
         self.stats["stmts"] += 1
         if self.stats["stmts"] > self.max_stmts:
             raise Unsupported("path explosion: statement budget exceeded", s)
+        cut = getattr(self, "cut_at", {}).get(id(s))
+        if cut is not None:
+            # opaque/reveal: prove the fact with the definitions revealed (own axiom groups), then use it opaquely
+            cenv = {}
+            if isinstance(s, (ast.If, ast.While)):
+                # `cond` in a cut is the REAL branch condition of the statement (never a copy of it)
+                sk = []
+                rs = list(self.evx(s.test, st, sk))
+                if len(rs) != 1 or sk:
+                    raise Unsupported("cut at a statement whose condition forks or raises", s)
+                cenv["cond"] = V(T.BOOL, self.truthy(rs[0][1], s))
+            for i, sp in enumerate(cut["prove"]):
+                # proved with the listed opaque functions replaced by their definitions (quantifier free) ...
+                g_open = self.spec(sp, st.set_meta("reveal", tuple(cut.get("reveal", ()))), env=cenv, old=st.old)
+                # only quantifier-free hypotheses are kept (sound: fewer hypotheses), so the query stays in QF_S
+                qf = st.clone(pc=tuple(f for f in st.pc if not self._has_quantifier(f)))
+                self.emit("cut", f"{cut['at'][0]}{cut['at'][1]}#{i + 1}", s, qf, g_open, note=sp,
+                          uses=cut.get("uses", ()))
+                # ... and used further on with the functions opaque
+                st = st.assume(self.spec(sp, st, env=cenv, old=st.old))
         yield from m(s, st)
+
+    @staticmethod
+    def _has_quantifier(f):
+        seen, todo = set(), [f]
+        while todo:
+            e = todo.pop()
+            if e.get_id() in seen:
+                continue
+            seen.add(e.get_id())
+            if z3.is_quantifier(e):
+                return True
+            todo.extend(e.children())
+        return False
 
     def _flush(self, sink):
         for est, exc in sink:
